@@ -17,4 +17,8 @@ INVARIANT VersionRuleHolds
 INVARIANT OnlyNamedLoss
 INVARIANT NoGrowth
 INVARIANT StrictNoGrowth
+INVARIANT StrictMcinSize
+INVARIANT ParseNeverFails
+INVARIANT ParseKeepsSubs
+INVARIANT RebuildKeepsOpts
 CHECK_DEADLOCK FALSE
